@@ -113,10 +113,13 @@ class DataFrame(Entity, DataSet):
         if name is None:
             name = self._find_name_by_idx(index)
         column = np.array(column)
-        for i, rows in enumerate(self._h5group.group['data'][:]):
+        # convert every cell first: a cell the column cannot hold must not
+        # leave the cells before it overwritten
+        data = self._h5group.group['data'][:]
+        for i, rows in enumerate(data):
             cell = column[i]
             rows[name] = cell
-            self.write_rows(rows=[rows], index=[i])
+        self._write_data(data)
 
     def read_columns(self, index=None, name=None, slc=None, group_by_cols=False):
         """
